@@ -49,6 +49,10 @@ type Case struct {
 	PostWait  int    `json:"post_wait_ms,omitempty"`
 	FailWrite int    `json:"fail_write,omitempty"` // the k-th socket write and all later ones fail
 	FailMode  string `json:"fail_mode,omitempty"`  // "error" (default) | "close" (websocket.CloseError)
+	// application middlewares registered with conn.Use after the harness's own observer (0-7); the one at
+	// position MwHold can be made to hold a run (ops mwhold / mwrelease)
+	Middlewares int `json:"middlewares,omitempty"`
+	MwHold      int `json:"mw_hold,omitempty"`
 }
 
 // Snapshot of what the client of one subscription should hold at a quiescent point.
@@ -296,6 +300,7 @@ type player struct {
 	timeout  time.Duration
 
 	blockedSeen int
+	runsSeen    int // completed computations when the last message was fed
 }
 
 func (p *player) problem(sig, detail string) {
@@ -474,6 +479,13 @@ func (p *player) applySet(o Op) {
 }
 
 func (p *player) feed(o Op, raw []byte) {
+	evs, _ := p.rec.Snapshot()
+	p.runsSeen = 0
+	for _, e := range evs {
+		if e.Kind == "mwend" {
+			p.runsSeen++
+		}
+	}
 	p.res.Fed = append(p.res.Fed, o)
 	p.fed++
 	p.sock.Feed(raw)
@@ -512,6 +524,35 @@ func (p *player) play(i int, o Op) {
 		p.w.SetFail(o.Field, o.N, o.Mode)
 		p.rec.add(Event{Kind: "touch", Field: o.Field})
 		p.w.Touch(o.Field, false)
+	case "mwhold":
+		n := o.N
+		if n <= 0 {
+			n = 1
+		}
+		p.w.ArmMiddleware(n)
+		return
+	case "mwrelease":
+		p.w.ReleaseMiddleware()
+	case "awaitrun":
+		// wait (briefly) until one more computation has completed than before the previous message was fed
+		deadline := time.Now().Add(400 * time.Millisecond)
+		for time.Now().Before(deadline) {
+			evs, ch := p.rec.Snapshot()
+			n := 0
+			for _, e := range evs {
+				if e.Kind == "mwend" {
+					n++
+				}
+			}
+			if n > p.runsSeen {
+				break
+			}
+			select {
+			case <-ch:
+			case <-time.After(20 * time.Millisecond):
+			}
+		}
+		return
 	case "tickarm":
 		p.w.ArmTicks(o.N)
 		return
@@ -614,6 +655,9 @@ func RunCase(c Case, timeout time.Duration) (res *Result) {
 		graphql.WithMaxSubscriptions(max),
 		graphql.WithMakeCtx(rec.makeCtx(w)))
 	conn.Use(rec.middleware)
+	for i := 0; i < c.Middlewares && i < 7; i++ {
+		conn.Use(w.UserMiddleware(i, c.MwHold))
+	}
 	register(conn, rec)
 	defer unregister(conn)
 	go func() {
@@ -632,6 +676,7 @@ func RunCase(c Case, timeout time.Duration) (res *Result) {
 		p.play(i, o)
 	}
 	// end of the case: release scripted pauses, close the socket, let everything drain
+	p.w.ReleaseMiddleware()
 	for id, rel := range p.releases {
 		close(rel)
 		delete(p.releases, id)
